@@ -210,8 +210,10 @@ def run(ck, ctx):
 
     # ---------------------------------------------------------------- R06.4 direction of the cumulative sums
     def r064():
+        # cumulative sums made by the kernel's own module (its methods or a helper function next to them)
         cs = [n for n in cone if is_ext_call(n, "numpy.cumsum") and n.fn is not None and
-              n.fn.qualname.startswith("CphotAng.")]
+              (n.fn.qualname.startswith("CphotAng.") or
+               (n.fn.module is not None and n.fn.module.name.endswith("eas_optical.cphotang")))]
         ck.floor("R06.4", len(cs), 3, "cumulative sums in slant_depth")
 
         def reversed_view(x):
@@ -361,7 +363,8 @@ def run(ck, ctx):
         # the per-step values integrated along the path (identified as the arguments of the cumulative sums)
         def per_step():
             cs_ = [n for n in cone if (is_ext_call(n, "numpy.cumsum") or (n.op == "MCall" and n.attr[0] == "cumsum"))
-                   and n.fn is not None and n.fn.qualname.startswith("CphotAng.")]
+                   and n.fn is not None and (n.fn.qualname.startswith("CphotAng.") or (
+                       n.fn.module is not None and n.fn.module.name.endswith("eas_optical.cphotang")))]
             args_ = {}
             for n in cs_:
                 x = n.args[1] if n.op == "Call" else n.args[0]
